@@ -17,6 +17,7 @@ from .values import (
     Pair,
     StructStr,
     SymDict,
+    SymIter,
     SymList,
     U,
     Unsupported,
@@ -703,11 +704,20 @@ def do_format(it, fmt, args, kwargs, pc):
     return vc.lift(f, [fmt] + allv, pc, it.sink)
 
 
+CONSUMING_METHODS = {"join", "extend", "update", "fromkeys", "union", "intersection", "difference", "symmetric_difference",
+                     "issubset", "issuperset", "isdisjoint", "intersection_update", "difference_update"}
+
+
 def call_native_method(it, recv, name, args, kwargs, pc):
     vc = it.vc
     I = _I()
     t = type(recv)
     fr = it.frames[-1]
+    if t is SymIter:
+        raise Unsupported("method %s of an iterator object" % name)
+    if name in CONSUMING_METHODS and any(type(a) is SymIter for a in args):
+        # these methods run their iterable argument to the end
+        args = [SymList([list(e) for e in it.consume_iter(a, pc)]) if type(a) is SymIter else a for a in args]
     if t is StructStr:
         return structstr_method(it, recv, name, args, kwargs, pc)
     if t is SymList:
@@ -1192,7 +1202,18 @@ def bi_allany(which):
         vc = it.vc
         fr = it.frames[-1]
         res = vc.CT if which == "all" else vc.CF
-        for pres, e in it.iter_items(args[0], fr, pc):
+        src = args[0]
+        if type(src) is SymIter:
+            # stops right after the first true (any) / false (all) element
+            truths = {}
+
+            def upto(i, p, v):
+                c = truths[i] = it.truth(v, fr, pc)
+                return c if which == "any" else vc.c_not(c)
+
+            items = it.consume_iter(src, pc, upto)
+            src = SymList([list(e) for e in items])
+        for pres, e in it.iter_items(src, fr, pc):
             c = it.truth(e, fr, pc)
             if which == "all":
                 res = vc.c_and(res, vc.c_or(vc.c_not(pres), c))
@@ -1357,7 +1378,7 @@ def bi_enumerate(it, args, kwargs, pc):
             out.append([vc.CT, (i, v)])
         else:
             out.append([vc.CT, SymList([[vc.CT, i], [vc.CT, v]], is_tuple=True)])
-    return SymList(out)
+    return SymIter(out)
 
 
 def bi_zip(it, args, kwargs, pc):
@@ -1371,19 +1392,23 @@ def bi_zip(it, args, kwargs, pc):
     out = []
     for tup in zip(*seqs):
         out.append([vc.CT, SymList([[vc.CT, x] for x in tup], is_tuple=True)])
-    return SymList(out)
+    return SymIter(out)
 
 
 def bi_reversed(it, args, kwargs, pc):
     v = args[0]
     if isinstance(v, SymList):
-        return SymList([list(e) for e in reversed(v.elems)])
-    return it.vc.lift(lambda x: list(reversed(x)), [v], pc, it.sink)
+        return SymIter([list(e) for e in reversed(v.elems)])
+    r = it.vc.lift(lambda x: list(reversed(x)), [v], pc, it.sink)
+    return SymIter([[pres, e] for pres, e in it.iter_items(r, it.frames[-1], pc)])
 
 
 def bi_next(it, args, kwargs, pc):
     vc = it.vc
     v = args[0]
+    if type(v) is SymIter:
+        # takes the first remaining element
+        v = SymList([list(e) for e in it.consume_iter(v, pc, lambda i, p, e: vc.CT)])
     if not isinstance(v, SymList):
         raise Unsupported("next(%r)" % (v,))
     outs = []
@@ -1621,12 +1646,12 @@ def bi_map(it, args, kwargs, pc):
     vals = _seq_values(it, args[1], pc)
     if vals is None or len(args) != 2:
         raise Unsupported("map over optional elements")
-    return SymList([[it.vc.CT, it.call(f, [v], {}, pc)] for v in vals])
+    return SymIter([[it.vc.CT, it.call(f, [v], {}, pc)] for v in vals])
 
 
 def bi_filter(it, args, kwargs, pc):
     f = args[0]
-    out = SymList([])
+    out = SymIter([])
     fr = it.frames[-1]
     for pres, v in it.iter_items(args[1], fr, pc):
         r = v if f is None else it.call(f, [v], {}, pc)
@@ -1695,5 +1720,15 @@ def install_overrides(it):
     ov[_copy.copy] = bi_copy
     ov[_copy.deepcopy] = bi_deepcopy
     ov[_json.dumps] = bi_json_dumps
+    def consuming(h):
+        def w(it_, args, kwargs, pc):
+            if any(type(a) is SymIter for a in args):
+                args = [SymList([list(e) for e in it_.consume_iter(a, pc)]) if type(a) is SymIter else a for a in args]
+            return h(it_, args, kwargs, pc)
+
+        return w
+
+    for f in (tuple, list, set, frozenset, dict, collections.OrderedDict, sorted, enumerate, zip, reversed, map, filter, sum, min, max):
+        ov[f] = consuming(ov[f])
     for nm in ("open", "exec", "eval", "compile", "__import__", "globals", "locals", "vars", "dir", "iter", "delattr"):
         ov[getattr(_bi, nm)] = bi_unsupported(nm)
